@@ -1,6 +1,369 @@
 // Contract harnesses for ntp-proto/src/packet/v5/server_reference_id.rs (child module: sees private items).
+// Property C34: NTPv5 Bloom filters are transferred faithfully; no false negatives.
 #![allow(unused_imports)]
 use super::*;
+
+// ---------------------------------------------------------------- RemoteBloomFilter
+
+// Type invariant established by `new` and preserved by every method (checked below):
+// chunk divides 512, is a multiple of 4, 4 <= chunk <= 512; next_to_request < 512 and chunk-aligned;
+// an outstanding request is always for the chunk at next_to_request.
+fn wf(r: &RemoteBloomFilter) -> bool {
+    r.chunk_size >= 4
+        && r.chunk_size <= 512
+        && r.chunk_size % 4 == 0
+        && 512 % r.chunk_size == 0
+        && r.next_to_request < 512
+        && r.next_to_request % r.chunk_size == 0
+        && match r.last_requested {
+            Some((off, _)) => off == r.next_to_request,
+            None => true,
+        }
+}
+
+fn any_wf() -> RemoteBloomFilter {
+    any_wf_chunk(kani::any())
+}
+
+// same, with the chunk size fixed by the caller (the copy in handle_response then has a constant
+// length, which CBMC needs; the eight harness instances cover every size that `new` accepts)
+fn any_wf_chunk(chunk: u16) -> RemoteBloomFilter {
+    let r = RemoteBloomFilter {
+        filter: BloomFilter(kani::any()),
+        chunk_size: chunk,
+        last_requested: if kani::any() { Some((kani::any(), NtpClientCookie(kani::any()))) } else { None },
+        next_to_request: kani::any(),
+        is_filled: kani::any(),
+    };
+    kani::assume(wf(&r));
+    r
+}
+
+// new: accepted exactly for chunk sizes that are multiples of 4, in 4..=512 and divide 512; the
+// fresh filter is empty, nothing outstanding, not filled, invariant holds. Every u16.
+#[kani::proof]
+fn c34_p_new() {
+    let c: u16 = kani::any();
+    let ok = c % 4 == 0 && c >= 4 && c <= 512 && 512 % c == 0;
+    match RemoteBloomFilter::new(c) {
+        Some(r) => {
+            assert!(ok);
+            assert!(wf(&r));
+            assert!(r.chunk_size == c && r.next_to_request == 0 && !r.is_filled && r.last_requested.is_none());
+            let i: usize = kani::any();
+            kani::assume(i < 512);
+            assert!(r.filter.0[i] == 0);
+            assert!(r.full_filter().is_none());
+        }
+        None => { assert!(!ok) }
+    }
+    kani::cover!(ok && c == 512, "512 accepted");
+    kani::cover!(ok && c == 4, "4 accepted");
+    kani::cover!(!ok && c % 4 == 0 && c < 512 && c > 0, "non-divisor rejected");
+}
+
+// next_request: for every state satisfying the invariant the `expect` is unreachable (no panic);
+// the request is for (chunk_size, next_to_request); the only state change is recording the
+// outstanding request with the given cookie; invariant preserved.
+#[kani::proof]
+fn c34_p_next_request() {
+    let mut r = any_wf();
+    let cookie = NtpClientCookie(kani::any());
+    let (chunk, next, filled, before) = (r.chunk_size, r.next_to_request, r.is_filled, r.filter);
+    let req = r.next_request(cookie);
+    assert!(req.payload_len() == chunk && req.offset() == next);
+    assert!(req.offset() as usize + req.payload_len() as usize <= 512);
+    assert!(r.last_requested == Some((next, cookie)));
+    assert!(r.chunk_size == chunk && r.next_to_request == next && r.is_filled == filled);
+    let i: usize = kani::any();
+    kani::assume(i < 512);
+    assert!(r.filter.0[i] == before.0[i]);
+    assert!(wf(&r));
+    kani::cover!(next == 508 && chunk == 4, "last small chunk reachable");
+}
+
+// handle_response: accepted exactly when a request is outstanding, the cookie matches and the
+// answer has exactly chunk_size bytes; then exactly filter[offset..offset+chunk] is overwritten
+// with the answer, the cursor advances by one chunk (mod 512), nothing is outstanding any more,
+// is_filled is set exactly when the cursor wrapped; otherwise NOTHING changes. Every invariant
+// state, every cookie, every answer of every length 0..=512 (also lengths not multiple of 4).
+fn handle_response_contract(chunk_size: u16) {
+    let mut r = any_wf_chunk(chunk_size);
+    let cookie = NtpClientCookie(kani::any());
+    let buf: [u8; 512] = kani::any();
+    let len: usize = kani::any();
+    kani::assume(len <= 512);
+    let resp = ReferenceIdResponse::decode(&buf[..len]);
+    let (chunk, next, filled, before, outstanding) = (r.chunk_size, r.next_to_request, r.is_filled, r.filter, r.last_requested);
+    let res = r.handle_response(cookie, &resp);
+    let should = match outstanding {
+        Some((_, c)) => c == cookie && len == chunk as usize,
+        None => false,
+    };
+    assert!(res.is_ok() == should);
+    let i: usize = kani::any();
+    kani::assume(i < 512);
+    if should {
+        let off = outstanding.unwrap().0 as usize;
+        if i >= off && i < off + chunk as usize {
+            assert!(r.filter.0[i] == buf[i - off], "chunk bytes are the answer");
+        } else {
+            assert!(r.filter.0[i] == before.0[i], "bytes outside the chunk untouched");
+        }
+        assert!(r.next_to_request == (next + chunk) % 512);
+        assert!(r.last_requested.is_none());
+        assert!(r.is_filled == (filled || r.next_to_request == 0));
+        assert!(r.chunk_size == chunk);
+    } else {
+        assert!(r.filter.0[i] == before.0[i]);
+        assert!(r.next_to_request == next && r.last_requested == outstanding && r.is_filled == filled && r.chunk_size == chunk);
+        match (outstanding, res) {
+            (None, Err(ResponseHandlingError::NotAwaitingResponse)) => {}
+            (Some((_, c)), Err(ResponseHandlingError::MismatchedCookie)) => { assert!(c != cookie) }
+            (Some((_, c)), Err(ResponseHandlingError::MismatchedLength)) => { assert!(c == cookie && len != chunk as usize) }
+            _ => { assert!(false, "error kind matches the reason") }
+        }
+    }
+    assert!(wf(&r));
+    kani::cover!(should && r.is_filled && !filled, "wrap reachable");
+    kani::cover!(!should && outstanding.is_some() && len == chunk as usize, "stale cookie reachable");
+}
+
+macro_rules! per_chunk {
+    ($f:ident: $($name:ident = $c:expr),*) => { $(
+        #[kani::proof]
+        fn $name() {
+            $f($c);
+        }
+    )* };
+}
+per_chunk!(handle_response_contract: c34_p_handle_response_4 = 4);
+per_chunk!(handle_response_contract: c34_p_handle_response_8 = 8);
+per_chunk!(handle_response_contract: c34_p_handle_response_16 = 16);
+per_chunk!(handle_response_contract: c34_p_handle_response_32 = 32);
+per_chunk!(handle_response_contract: c34_p_handle_response_64 = 64);
+per_chunk!(handle_response_contract: c34_p_handle_response_128 = 128);
+per_chunk!(handle_response_contract: c34_p_handle_response_256 = 256);
+per_chunk!(handle_response_contract: c34_p_handle_response_512 = 512);
+
+// advance_next_to_request on its own, every invariant state.
+#[kani::proof]
+fn c34_p_advance() {
+    let mut r = any_wf();
+    r.last_requested = None;
+    let (chunk, next, filled) = (r.chunk_size, r.next_to_request, r.is_filled);
+    r.advance_next_to_request();
+    assert!(r.next_to_request as u32 == (next as u32 + chunk as u32) % 512);
+    assert!(r.is_filled == (filled || r.next_to_request == 0));
+    assert!(wf(&r));
+    kani::cover!(r.next_to_request == 0, "wrap reachable");
+}
+
+// full_filter: Some(the filter) exactly when is_filled.
+#[kani::proof]
+fn c34_p_full_filter() {
+    let r = any_wf();
+    match r.full_filter() {
+        Some(f) => {
+            assert!(r.is_filled);
+            let i: usize = kani::any();
+            kani::assume(i < 512);
+            assert!(f.0[i] == r.filter.0[i]);
+        }
+        None => { assert!(!r.is_filled) }
+    }
+    kani::cover!(r.full_filter().is_some(), "filled reachable");
+}
+
+// Inductive step of the transfer lemma, every chunk size and position at once: if the client's
+// filter agrees with the server's filter S on every byte below the cursor, then after one
+// request / (real server answer via to_response) / accepted response it agrees on every byte below
+// the new cursor, and when the cursor wraps (all 512/chunk requests answered) the client holds
+// exactly S and reports it through full_filter. (The quantifier over bytes is discharged with one
+// arbitrary index i: the step for byte i only needs the hypothesis for byte i.)
+fn transfer_step(chunk_size: u16) {
+    let mut r = any_wf_chunk(chunk_size);
+    let server = BloomFilter(kani::any());
+    let i: usize = kani::any();
+    kani::assume(i < 512);
+    kani::assume(!(i < r.next_to_request as usize) || r.filter.0[i] == server.0[i]);
+    let cookie = NtpClientCookie(kani::any());
+    let req = r.next_request(cookie);
+    let resp = req.to_response(&server).expect("server answers a well-formed request");
+    r.handle_response(cookie, &resp).expect("the answer to the outstanding request is accepted");
+    if r.next_to_request == 0 {
+        assert!(r.filter.0[i] == server.0[i], "after the last chunk the client holds the server's filter");
+        assert!(r.full_filter().is_some());
+    } else {
+        assert!(!(i < r.next_to_request as usize) || r.filter.0[i] == server.0[i]);
+    }
+    kani::cover!(r.next_to_request == 0, "last chunk reachable");
+    // (with chunk 512 there is no middle chunk)
+    kani::cover!(chunk_size == 512 || (r.next_to_request != 0 && i < r.next_to_request as usize), "middle chunk reachable");
+}
+
+per_chunk!(transfer_step: c34_p_transfer_step_4 = 4);
+per_chunk!(transfer_step: c34_p_transfer_step_8 = 8);
+per_chunk!(transfer_step: c34_p_transfer_step_16 = 16);
+per_chunk!(transfer_step: c34_p_transfer_step_32 = 32);
+per_chunk!(transfer_step: c34_p_transfer_step_64 = 64);
+per_chunk!(transfer_step: c34_p_transfer_step_128 = 128);
+per_chunk!(transfer_step: c34_p_transfer_step_256 = 256);
+per_chunk!(transfer_step: c34_p_transfer_step_512 = 512);
+
+// ---------------------------------------------------------------- BloomFilter
+
+fn any_id() -> ServerId {
+    let raw: [u16; 10] = kani::any();
+    let mut ids = [U12(0); 10];
+    let mut k = 0;
+    while k < 10 {
+        // type invariant of U12 (established by TryFrom / the Standard distribution)
+        kani::assume(raw[k] < 4096);
+        ids[k] = U12(raw[k]);
+        k += 1;
+    }
+    ServerId(ids)
+}
+
+// No false negatives: after add_id(id), contains_id(id); bits only get set (monotone), so every id
+// contained before is still contained. Every filter content, every pair of ids.
+#[kani::proof]
+#[kani::unwind(12)]
+fn c34_p_add_id_contains() {
+    let mut f = BloomFilter(kani::any());
+    let before = f;
+    let id = any_id();
+    let other = any_id();
+    let had_other = f.contains_id(&other);
+    f.add_id(&id);
+    assert!(f.contains_id(&id), "no false negative");
+    assert!(!had_other || f.contains_id(&other), "membership is monotone under add_id");
+    let i: usize = kani::any();
+    kani::assume(i < 512);
+    assert!(f.0[i] & before.0[i] == before.0[i], "bits are only ever set");
+    // and only bits named by the id are set
+    let bit: u8 = kani::any();
+    kani::assume(bit < 8);
+    if f.0[i] & (1 << bit) != 0 && before.0[i] & (1 << bit) == 0 {
+        let mut named = false;
+        let mut k = 0;
+        while k < 10 {
+            if id.0[k].0 as usize == i * 8 + bit as usize {
+                named = true;
+            }
+            k += 1;
+        }
+        assert!(named, "only the id's bits are set");
+    }
+    kani::cover!(!before.contains_id(&id), "id was new");
+}
+
+// byte_and_mask: index < 512 and single-bit mask for every 12-bit value.
+#[kani::proof]
+fn c34_p_byte_and_mask() {
+    let v: u16 = kani::any();
+    kani::assume(v < 4096);
+    let (idx, mask) = U12(v).byte_and_mask();
+    assert!(idx < 512 && mask.count_ones() == 1);
+    assert!(idx * 8 + mask.trailing_zeros() as usize == v as usize);
+    assert!(U12::try_from(v).is_ok());
+    let w: u16 = kani::any();
+    assert!(U12::try_from(w).is_ok() == (w < 4096));
+    kani::cover!(idx == 511, "last byte reachable");
+}
+
+// add (union): the result is the bytewise OR, so membership is monotone under add:
+// contains_id(id) in either operand implies contains_id(id) in the union.
+#[kani::proof]
+#[kani::unwind(513)]
+fn c34_p_add_union_monotone() {
+    let mut f = BloomFilter(kani::any());
+    let before = f;
+    let g = BloomFilter(kani::any());
+    f.add(&g);
+    let i: usize = kani::any();
+    kani::assume(i < 512);
+    assert!(f.0[i] == before.0[i] | g.0[i]);
+    // membership of one arbitrary index (contains_id is the conjunction over the id's indices)
+    let v: u16 = kani::any();
+    kani::assume(v < 4096);
+    assert!(!(before.is_set(U12(v)) || g.is_set(U12(v))) || f.is_set(U12(v)));
+    kani::cover!(f.0[i] != before.0[i], "bits added");
+}
+
+// contains_id is exactly the conjunction of is_set over the id's ten indices.
+#[kani::proof]
+#[kani::unwind(12)]
+fn c34_p_contains_is_conjunction() {
+    let f = BloomFilter(kani::any());
+    let id = any_id();
+    let mut all = true;
+    let mut k = 0;
+    while k < 10 {
+        if !f.is_set(id.0[k]) {
+            all = false;
+        }
+        k += 1;
+    }
+    assert!(f.contains_id(&id) == all);
+    kani::cover!(all, "member reachable");
+    kani::cover!(!all, "non-member reachable");
+}
+
+// ---------------------------------------------------------------- server side: ReferenceIdRequest::to_response
+
+// The server answers a chunk request with exactly the requested bytes or not at all: for every
+// request the decoder can produce (offset = any u16, payload_len = any field length 2..=1024) and
+// every filter: Some(bytes) exactly when offset + payload_len <= 512, and then
+// bytes == filter[offset .. offset + payload_len].
+#[kani::proof]
+fn c34_p_to_response_exact_or_none() {
+    let msg: [u8; 1024] = kani::any();
+    let len: usize = kani::any();
+    kani::assume(len >= 2 && len <= 1024);
+    let req = ReferenceIdRequest::decode(&msg[..len]).expect("two bytes suffice");
+    assert!(req.payload_len() as usize == len && req.offset() == u16::from_be_bytes([msg[0], msg[1]]));
+    let filter = BloomFilter(kani::any());
+    let in_range = req.offset() as usize + len <= 512;
+    match req.to_response(&filter) {
+        Some(resp) => {
+            assert!(in_range);
+            assert!(resp.bytes().len() == len);
+            let j: usize = kani::any();
+            kani::assume(j < len);
+            assert!(resp.bytes()[j] == filter.0[req.offset() as usize + j], "answer is the requested slice");
+        }
+        None => { assert!(!in_range) }
+    }
+    kani::cover!(in_range && len == 512, "whole filter reachable");
+    kani::cover!(!in_range && req.offset() < 512, "overlong request reachable");
+}
+
+// ---------------------------------------------------------------- canaries
+
+// FALSE: a response with a stale cookie is accepted.
+#[kani::proof]
+fn c34_canary_stale_cookie_accepted() {
+    let mut r = any_wf_chunk(64);
+    let buf: [u8; 512] = kani::any();
+    let cookie = NtpClientCookie(kani::any());
+    kani::assume(matches!(r.last_requested, Some((_, c)) if c != cookie));
+    let resp = ReferenceIdResponse::decode(&buf[..r.chunk_size as usize]);
+    assert!(r.handle_response(cookie, &resp).is_ok());
+}
+
+// FALSE: an id never added is never reported (Bloom filters do have false positives).
+#[kani::proof]
+#[kani::unwind(12)]
+fn c34_canary_no_false_positives() {
+    let mut f = BloomFilter::new();
+    let id = any_id();
+    let other = any_id();
+    kani::assume(id.0[0].0 != other.0[0].0);
+    f.add_id(&id);
+    assert!(!f.contains_id(&other));
+}
 
 #[cfg(all(kani, test))]
 mod replay {
